@@ -138,6 +138,7 @@ class ZoneFn:
         self.fresh = 0
         self.sym_bound = {}
         self.sym_le = {}       # opaque symbol -> a term it never exceeds (quotients, differences)
+        self.elem_of = {}      # symbol of one element read -> elem:<container> that bounds it
         self._ub_guard = set()
         self._ub_inprog = set()
         self.mut_roots = self._mut_roots()
@@ -169,10 +170,87 @@ class ZoneFn:
                 if not t['dst'].get('p'):
                     self.term_local(t['dst']['l'])
                     self.desc_local(t['dst']['l'])
+                    self._retelem_facts(bi, t)
             elif t['k'] == 'assert':
                 for o in t['ops']:
                     self.term_op(o)
         self._fact_cache = {k: v for k, v in self._fact_cache.items() if isinstance(k, tuple) and k and k[0] == 'pb'}
+        if self._collect_loop_quantifiers():
+            self._fact_cache = {k: v for k, v in self._fact_cache.items() if isinstance(k, tuple) and k and k[0] == 'pb'}
+
+    def _retelem_facts(self, bi, t):
+        """a local callee that returns a vector of indexes all below a parameter term: the same bound holds for the result here"""
+        from flow import local_target
+        tgt = local_target(self.za.eng, t)
+        if tgt is None or tgt == self.body.path:
+            return
+        summ = self.za.summary(tgt)
+        if not summ or not summ.get('retelem'):
+            return
+        es = self.elem_sym_of_desc(self.desc_local(t['dst']['l']))
+        if es is None:
+            return
+        for (k, T) in summ['retelem']:
+            b = self.za.subst(self, t, T)
+            if b is not None:
+                self.global_facts.append((bi, (es, k), b))
+
+    def _invariant_in(self, t, blocks):
+        """is the term's symbol defined outside the loop (parameters, lengths, constants, captures, values computed before the loop)?"""
+        if t is None:
+            return False
+        sy = t[0]
+        if sy is None or sy.startswith(('p', 'len:', 'cap', 'N:', 'elem:')):
+            return True
+        import re
+        m = re.match(r'^v(\d+)p?$', sy)
+        if m:
+            d = self.single_def(int(m.group(1)))
+            return d is not None and d[1] not in blocks
+        return False
+
+    def _collect_loop_quantifiers(self):
+        """`for e in c { if !(e OP bound) { return / break } ... }`: on the edge that leaves the loop because the iterator is exhausted, every
+        element of c satisfies what each back edge guarantees about the current element (bounds that do not change inside the loop)."""
+        body = self.body
+        added = False
+        for h, blocks in self.loops:
+            for bn in sorted(blocks):
+                t = body.blocks[bn]['term']
+                if t['k'] != 'call' or (t.get('callee') or '') != 'std::iter::Iterator::next' or t['dst'].get('p') or not t['args']:
+                    continue
+                es = self.elem_sym_of_iter(t['args'][0])
+                if es is None:
+                    continue
+                r = t['dst']['l']
+                vsym = 'v%de' % r
+                # the switch on the discriminant of the next() result, and its edge out of the loop
+                exit_edges = []
+                for sb in blocks:
+                    st = body.blocks[sb]['term']
+                    if st['k'] != 'switch' or st['discr']['k'] not in ('copy', 'move') or st['discr']['pl'].get('p'):
+                        continue
+                    d = self.single_def(st['discr']['pl']['l'])
+                    if d and d[0] == 'assign' and d[2]['rv']['k'] == 'discr' and not d[2]['rv']['pl'].get('p') and d[2]['rv']['pl']['l'] == r:
+                        for v, x in st['targets']:
+                            if v == '0' and x not in blocks:        # discriminant 0 = None: the iterator is exhausted
+                                exit_edges.append((sb, x))
+                if len(exit_edges) != 1:
+                    continue
+                latches = [x for x in blocks if h in body.succ[x]]
+                if not latches:
+                    continue
+                common = None
+                for la in latches:
+                    fs = set()
+                    for (a, b) in self.facts_at(la):
+                        if a is not None and a[0] == vsym and self._invariant_in(b, blocks):
+                            fs.add((a[1], b))
+                    common = fs if common is None else (common & fs)
+                for (k, b) in sorted(common or [], key=str):
+                    self.edge_facts.setdefault(exit_edges[0], []).append(((es, k), b))
+                    added = True
+        return added
 
     # ------------------------------------------------------------------ mutation census
     def _mut_roots(self):
@@ -362,6 +440,20 @@ class ZoneFn:
         ps = pl['p']
         if all(p['k'] == 'deref' for p in ps):
             return self.term_local(pl['l'])       # a reference to an integer: same value
+        # element of an integer container read by index: a value of its own, never above what bounds every element
+        idx = [p for p in ps if p['k'] == 'index']
+        if len(idx) == 1 and all(p['k'] in ('deref', 'index') for p in ps):
+            cty = self.body.local_ty(pl['l']).replace('&mut ', '').lstrip('&').strip()
+            if cty.startswith(('[usize', 'std::vec::Vec<usize', '[u64', 'std::vec::Vec<u64', '[u32', 'std::vec::Vec<u32')):
+                key = ('elemread', pl['l'], idx[0]['l'])
+                if key not in self._term:
+                    res = ('v%dx%d' % (pl['l'], idx[0]['l']), 0)
+                    self._term[key] = res
+                    es = self.elem_sym_of_desc(self.desc_local(pl['l']))
+                    if es is not None:
+                        self.global_facts.append((None, res, (es, 0)))
+                        self.elem_of[res[0]] = es
+                return self._term[key]
         # captured variable of a closure: (*(_1.k)) or (_1.k)
         if self.body.kind == 'Closure' and pl['l'] == 1 and ps and ps[0]['k'] in ('field', 'deref'):
             fs = [p for p in ps if p['k'] == 'field']
@@ -465,6 +557,13 @@ class ZoneFn:
                         res = None
                     elif cal.endswith('::unwrap_or') and ty == 'usize':
                         res = None
+                    elif cal in INDEX_CALLS and len(x['args']) == 2 and x['args'][0]['k'] in ('copy', 'move') and ty.lstrip('&').strip() in ('usize', 'u64', 'u32'):
+                        # `&c[j]` on an integer container: an element of c
+                        res = ('v%dx' % l, 0)
+                        es = self.elem_sym_of_desc(self.desc_place(x['args'][0]['pl']))
+                        if es is not None:
+                            self.global_facts.append((None, res, (es, 0)))
+                            self.elem_of[res[0]] = es
                 if res is None and ty in ('usize', 'u64', 'u32', 'u16', 'u8', 'bool') and ty != 'bool':
                     res = self._opaque(l)
         self._term[l] = res
@@ -560,6 +659,12 @@ class ZoneFn:
                     if sl is not None:
                         # the loop body runs only if the slice is non-empty
                         self.global_facts.append((('payload', l), (None, 1), sl))
+                    es = self.elem_sym_of_iter(t['args'][0])
+                    if es is not None:
+                        # the element handed out is one of the container's elements: bounded by whatever bounds all of them
+                        res = ('v%de' % l, 0)
+                        self.global_facts.append((('payload', l), res, (es, 0)))
+                        self.elem_of[res[0]] = es
         self._term[key] = res
         return res
 
